@@ -46,8 +46,8 @@ var fragDict = []string{
 	"/**", " * @param x", " * @param? y", "*/", "{@param x: int}", "{@param? x: ", "{alias a.b}",
 	"{if $x}", "{elseif $y}", "{else}", "{/if}", "{switch $x}", "{case 1}", "{case 1, 'a'}", "{default}", "{/switch}",
 	"{foreach $i in $l}", "{ifempty}", "{/foreach}", "{for $i in range(3)}", "{/for}",
-	"{let $v: 1/}", "{let $v}", "{/let}", "{call .t}", "{call .t/}", "{call a.t data=\"all\"/}", "{call name=\".t\" data=\"$x\"}",
-	"{param k: 1/}", "{param k}", "{param key=\"k\" value=\"1\"/}", "{/param}", "{/call}",
+	"{let $v: 1/}", "{let $v}", "{/let}", "{call .t}", "{call .t/}", "{call a.t data=\"all\"/}", "{call name=\".t\" data=\"$x\"}", "{call name=\"\"/}", "{call .t data=\"\"/}",
+	"{param k: 1/}", "{param k}", "{param key=\"k\" value=\"1\"/}", "{param key=\"\" value=\"\"/}", "{/param}", "{/call}",
 	"{msg desc=\"d\"}", "{msg meaning=\"m\" desc=\"d\"}", "{/msg}", "{plural $n}", "{/plural}",
 	"{css a}", "{css $x, a}", "{css ", "{literal}", "{/literal}", "{log}", "{/log}", "{debugger}",
 	"{sp}", "{nil}", "{\\n}", "{lb}", "{rb}", "{print $x}", "{$x}", "{$x|id}", "{$x|truncate:5,true}", "{$x.a?.b[0]?[1]}",
